@@ -185,6 +185,7 @@ func propC07() *Prop {
 			js = append(js, lbJob("C07c/wiring[ServeHTTP + breaker + scripted backend]", "VerifC07Wiring", 0))
 			js = append(js, lbJob("C07c/wiring[the backend may send interim 1xx responses before its final status]", "VerifC07Wiring", 1))
 			js = append(js, threadJob(job("C07b/concurrent-admission[2 threads]", "circuitbreaker", "VerifC07Concurrent", 2), 2))
+			js = append(js, threadJob(job("C07b/straggler-completes-while-a-trial-is-in-flight[half-open]", "circuitbreaker", "VerifC07StragglerHalfOpen"), 1))
 			js = append(js, threadJob(job("C07b/straggler-admitted-while-closed-completes-after-the-trip[fails]", "circuitbreaker", "VerifC07Straggler", 0), 2))
 			js = append(js, threadJob(job("C07b/straggler-admitted-while-closed-completes-after-the-trip[succeeds]", "circuitbreaker", "VerifC07Straggler", 1), 2))
 			if tier == "thorough" {
